@@ -149,6 +149,11 @@ impl CommandLineArgument {
     }
 
     pub fn set_environment_variable(argument: &CommandLineArgument, value: String) {
+        // std::env::set_var panics on a value with a NUL byte
+        if value.contains('\0') {
+            eprintln!("    value for '{}' contains a NUL byte, ignored", argument.environment_variable);
+            return;
+        }
         env::set_var(&argument.environment_variable, &value);
         println!("    Set env variable '{}' to value '{}'", argument.environment_variable, &value);
     }
